@@ -11,6 +11,11 @@ GUARD = "(8, 40, 41, 42, 43, 44, 45)"     # FAILED_MESSAGE and RTMA_LOG* (recurs
 
 
 def install(R: Registry):
+    R.ghost_global("seen_tr", "Map[Int, Int]")     # forward_message calls per type outside the statistics context since the last MESSAGE_TRAFFIC report
+    R.ghost_global("seen_tm", "Map[Int, Int]")     # same, since the last TIMING_MESSAGE (only while timing is enabled)
+    R.ghost_global("tr_n", "Int")                  # MESSAGE_TRAFFIC sub-messages emitted by the current send_traffic call
+    R.ghost_global("tr_types", "Map[Int, CArray[Int, 64]]")    # msg_type array of the k-th sub-message as it was sent
+    R.ghost_global("tr_counts", "Map[Int, CArray[Int, 64]]")   # msg_count array of the k-th sub-message as it was sent
     R.ghost_global("fwd_hdr", "Map[Int, MessageHeader]")     # header object given to delivery gid
     R.ghost_global("fwd_data", "Map[Int, Buffer]")           # payload object given to delivery gid
     # ================================================================== spec functions
@@ -64,7 +69,7 @@ def install(R: Registry):
         "Module.msg_count", "Module.drops", "Module.connected", "MessageHeader.msg_count",
         "Socket.closed", "Socket.pending", "Socket.frames", "Socket.last_count",
         "glob:gid_next", "glob:delivered", "glob:stray", "glob:notice", "glob:closed_notices",
-        "glob:cur_gid", "glob:cur_hdr", "glob:cur_data", "glob:fwd_hdr", "glob:fwd_data",
+        "glob:cur_gid", "glob:cur_hdr", "glob:cur_data", "glob:fwd_hdr", "glob:fwd_data", "glob:seen_tr", "glob:seen_tm",
     ]
     R.define("table_shrinks", "mm: MessageManager",
              "forall('c:Socket', implies(dom(mm.modules)[c], old(dom(mm.modules)[c]) and mm.modules[c] == old(mm.modules[c])))")
@@ -89,7 +94,13 @@ def install(R: Registry):
              "implies(old(mm.sending_traffic), mm.traffic_counter == old(mm.traffic_counter) and mm.message_counts == old(mm.message_counts)) and "
              "forall('m:Module', implies(m.connected, old(m.connected)))",
              "sequence numbers and traffic counters only grow; nothing is counted while the statistics themselves are being sent; no module becomes connected")
+    R.define("counter_sync", "mm: MessageManager",
+             "forall('u:Int', mm.traffic_counter[u] - seen_tr[u] == old(mm.traffic_counter[u] - seen_tr[u])) and "
+             "forall('u:Int', mm.message_counts[u] - seen_tm[u] == old(mm.message_counts[u] - seen_tm[u])) and "
+             "forall('u:Int', seen_tr[u] >= old(seen_tr[u]) and seen_tm[u] >= old(seen_tm[u]))",
+             "the traffic / timing counters advance by exactly the number of messages handled for forwarding outside the statistics context")
     BCAST_ENSURES = [
+        ("C18", "counter_sync(self)"),
         ("C01 C03 C05 C07", "wf_weak(self)"),
         ("C01 C06 C07", "table_shrinks(self)"),
         ("C01 C07", "subs_shrink(self)"),
@@ -232,9 +243,12 @@ def install2(R: Registry):
     # ------------------------------------------------------------------ MessageManager.send_message
     R.contract(M + "MessageManager.send_message", tags="C01 C03 C05 C07 C14 C18",
                params=dict(msg_data="MessageData", dest_mod_id="Int", dest_host_id="Int", timeout="Float"),
-               requires=BASE_REQ + [("C05", "msg_data != null and nbytes(msg_data) == msg_data.type_size and 0 <= msg_data.type_size and msg_data.type_size <= 65535")],
+               requires=BASE_REQ + [("C05", "msg_data != null and nbytes(msg_data) == msg_data.type_size and 0 <= msg_data.type_size and msg_data.type_size <= 65535 and 0 <= msg_data.type_id and msg_data.type_id <= 2147483647")],
                modifies=BM, ensures=BASE_ENS + [
                    ("C18", "implies(self.sending_traffic, self.traffic_counter == old(self.traffic_counter) and self.message_counts == old(self.message_counts))"),
+                   ("C14 C18 C07", "gid_next > old(gid_next) and fwd_data[old(gid_next)] == msg_data and fwd_hdr[old(gid_next)] != null and "
+                                   "fwd_hdr[old(gid_next)].msg_type == msg_data.type_id and fwd_hdr[old(gid_next)].src_mod_id == 0",
+                    "the first delivery made is the given message, originated by the manager"),
                ])
 
     # ------------------------------------------------------------------ remove_module / send_client_close
@@ -281,7 +295,11 @@ def install2(R: Registry):
     R.define("ready", "mm: MessageManager, m: Module", "m.conn in mm.wlist")
     R.define("bad_dest", "h: MessageHeader", "h.dest_mod_id < 0 or h.dest_mod_id > 200 or h.dest_host_id < 0 or h.dest_host_id > 5")
     R.define("in_guard", "t: Int", f"t in {GUARD}")
-    FWD_GHOST_IN = ["saved_gid = cur_gid\nsaved_hdr = cur_hdr\nsaved_data = cur_data\ngid = gid_next\n"
+    FWD_GHOST_IN = ["if not self.sending_traffic:\n"
+                    "    seen_tr = store(seen_tr, header.msg_type, seen_tr[header.msg_type] + 1)\n"
+                    "    if self.b_send_msg_timing:\n"
+                    "        seen_tm = store(seen_tm, header.msg_type, seen_tm[header.msg_type] + 1)",
+                    "saved_gid = cur_gid\nsaved_hdr = cur_hdr\nsaved_data = cur_data\ngid = gid_next\n"
                     "gid_next = gid_next + 1\ncur_gid = gid\ncur_hdr = header\ncur_data = data\n"
                     "fwd_hdr = store(fwd_hdr, gid, header)\nfwd_data = store(fwd_data, gid, data)"]
     FWD_GHOST_OUT = ["cur_gid = saved_gid\ncur_hdr = saved_hdr\ncur_data = saved_data"]
@@ -307,14 +325,9 @@ def install2(R: Registry):
          "a failure to deliver a failure notice or a log message never produces a further notice"),
         ("C14", "implies(not bad_dest(header) and not in_guard(header.msg_type), forall('m:Module', implies(old(is_sub(self, m, header.msg_type)) and elig(m, header.dest_mod_id) and not m.is_logger and not old(ready(self, m)) and ismod(self, m) and not m.conn.closed, notice[gid][m] >= 1)))",
          "an eligible subscriber that is not ready (and is still connected when the delivery ends) gets a FAILED_MESSAGE published for it"),
-        # --- C18: counters
-        ("C18", "implies(not old(self.sending_traffic), counted(self, header.msg_type))"),
-        ("C18", "implies(old(self.sending_traffic), self.traffic_counter == old(self.traffic_counter) and self.message_counts == old(self.message_counts))"),
+        # --- C18: counters (counter_sync is part of the common clauses)
         ("C18", "self.sending_traffic == old(self.sending_traffic)"),
     ]
-    R.define("counted", "mm: MessageManager, t: Int",
-             "forall('u:Int', implies(u != t or True, mm.traffic_counter[u] >= old(mm.traffic_counter[u]))) and mm.traffic_counter[t] >= old(mm.traffic_counter[t]) + 1",
-             "the type is counted once for this call; nested notices add their own types")
     SUBL = "subscribers"
     inv = [
         "dest_mod_id == header.dest_mod_id and not bad_dest(header)",
@@ -338,8 +351,7 @@ def install2(R: Registry):
         "forall('m:Module', implies(old(is_sub(self, m, header.msg_type)) and ismod(self, m), not m.conn.closed))",
         "header.msg_type == old(header.msg_type) and header.src_mod_id == old(header.src_mod_id) and header.src_host_id == old(header.src_host_id) and "
         "header.dest_mod_id == old(header.dest_mod_id) and header.dest_host_id == old(header.dest_host_id) and header.num_data_bytes == old(header.num_data_bytes)",
-        "implies(not old(self.sending_traffic), counted(self, header.msg_type))",
-        "implies(old(self.sending_traffic), self.traffic_counter == old(self.traffic_counter) and self.message_counts == old(self.message_counts))",
+        "counter_sync(self)",
     ]
     R.contract(M + "MessageManager.forward_message", tags="C01 C03 C05 C07 C14 C18",
                params=dict(src_module="Module", header="MessageHeader", data="Buffer"),
@@ -627,3 +639,46 @@ def install6(R: Registry):
                     "every non-control type is forwarded with the received header and payload view"),
                ])
     R.define("is_control", "t: Int", "t in (13, 4, 14, 15, 16, 85, 86, 34, 26)")
+
+
+def install7(R: Registry):
+    """seventh part: statistics messages (C18) and the main loop (C03)"""
+    TOP_REQ, TOP_ENS, TOP_MOD = R.TOP_REQ, R.TOP_ENS, R.TOP_MOD
+    R.mark_inline(M + "MessageManager.sending_traffic_ctx")
+    R.define("stats_sync", "mm: MessageManager",
+             "forall('u:Int', mm.traffic_counter[u] == seen_tr[u] and seen_tr[u] >= 0) and forall('u:Int', dom(mm.traffic_counter)[u] == (seen_tr[u] > 0)) and "
+             "forall('u:Int', mm.message_counts[u] == seen_tm[u] and seen_tm[u] >= 0) and forall('u:Int', dom(mm.message_counts)[u] == (seen_tm[u] > 0)) and not mm.sending_traffic",
+             "between frames the counters equal the number of messages handled for forwarding since the last report")
+    STAT_ENS = [(t, c if c != "counts_monotone(self)" else "forall('m:Module', m.msg_count >= old(m.msg_count) and implies(m.connected, old(m.connected)))")
+                for t, c in TOP_ENS if c != "counter_sync(self)"]
+    R.define("wrap16u", "v: Int", "wrap_int(v, 16, False)")
+
+    # ------------------------------------------------------------------ TIMING_MESSAGE
+    R.define("timing_payload", "d: MDF_TIMING_MESSAGE, cnt: Map[Int, Int]",
+             "forall('t:Int', implies(0 <= t and t < 10000, d.timing[t] == wrap16u(cnt[t])))",
+             "for every message type in range, the number of messages of that type handled since the previous report (uint16 field)")
+    R.contract(M + "MessageManager.send_timing_message", tags="C18 C03",
+               requires=TOP_REQ + [("C18", "stats_sync(self)"), ("C06", "ids_ok(self)"),
+                                   "forall('m:Module', implies(ismod(self, m), 0 <= m.mod_id and m.mod_id < 200))"],
+               modifies=TOP_MOD,
+               ensures=STAT_ENS + [
+                   ("C18", "stats_sync(self)"),
+                   ("C18", "forall('u:Int', seen_tm[u] == 0) and seen_tr == old(seen_tr)", "the timing counters restart; the statistics message itself is not counted"),
+                   ("C18", "gid_next > old(gid_next) and typeis(fwd_data[old(gid_next)], MDF_TIMING_MESSAGE) and fwd_hdr[old(gid_next)].msg_type == 80 and "
+                           "timing_payload(cast(fwd_data[old(gid_next)], MDF_TIMING_MESSAGE), old(seen_tm))",
+                    "the TIMING_MESSAGE that is broadcast carries exactly the per-type counts"),
+                   ("C18", "forall('m:Module', implies(old(ismod(self, m)), exists('m2:Module', old(ismod(self, m2)) and m2.mod_id == m.mod_id and "
+                           "cast(fwd_data[old(gid_next)], MDF_TIMING_MESSAGE).ModulePID[m.mod_id] == wrap_int(m2.pid, 32))))",
+                    "for every module id in the table the process id of a module holding that id"),
+               ],
+               ghost_exit=["seen_tm = store_all_zero()"],
+               loops={1: dict(invariant=[
+                   "self.message_counts == old(self.message_counts) and seen_tm == old(seen_tm) and seen_tr == old(seen_tr) and typeis(data, MDF_TIMING_MESSAGE)",
+                   "forall('t:Int', implies(0 <= t and t < 10000, data.timing[t] == ite(done[t], wrap16u(old(seen_tm)[t]), 0)))",
+               ]), 2: dict(invariant=[
+                   "self.modules == old(self.modules) and seen_tm == old(seen_tm) and seen_tr == old(seen_tr) and typeis(data, MDF_TIMING_MESSAGE)",
+                   "forall('u:Int', self.message_counts[u] == 0 and not dom(self.message_counts)[u])",
+                   "timing_payload(data, old(seen_tm))",
+                   "forall('c:Socket', implies(done[c], exists('c2:Socket', done[c2] and self.modules[c2].mod_id == self.modules[c].mod_id and "
+                   "data.ModulePID[self.modules[c].mod_id] == wrap_int(self.modules[c2].pid, 32))))",
+               ])})
